@@ -462,6 +462,7 @@ package seccomp
 //@   ensures @closed result1 == nil && ok(old(p)) ==> closed(result0) && retsInSet(result0, old(p.R))
 //@   ensures @len result1 == nil ==> len(result0) >= len(old(p.instructions))
 //@   opaque posMono jumpsComplete
+//@   opaque closed retsInSet except closed
 //@   ghost ghost.apos = idArr at entry
 //@   use monoId() at entry
 //@   use monoPivot(old(p.jumps)[i].index) at loop 1 body
